@@ -444,6 +444,11 @@ impl PartialOrd for Natural {
         if l_bw != r_bw {
             return Some(l_bw.cmp(&r_bw));
         }
+        if l_bw == 0 {
+            // both are zero (normalizing the most significant digit below
+            // would shift by the full digit width)
+            return Some(Ordering::Equal);
+        }
 
         let (&l_msd, mut l_digits) = l_digits.split_last().unwrap();
         let (&r_msd, mut r_digits) = r_digits.split_last().unwrap();
